@@ -48,7 +48,7 @@ ASSUMPTIONS = [
 ]
 PROBES = ["event_queued_while_bytes_buffered", "two_scheduled_due", "equal_when", "stale_wakeup_spurious", "two_spurious_in_one_request",
           "interrupted_with_sigint_event", "interrupted_without_sigint_event", "paste_event", "paste_refilled", "char_cut_by_read",
-          "threshold_none_burst_gt_read_size", "timeout_expired", "several_ready", "unget_ahead_of_stream", "keyboardinterrupt_torn_request",
+          "threshold_none_burst_gt_read_size", "timeout_expired", "unget_ahead_of_stream", "keyboardinterrupt_torn_request",
           "threadsafe_event_woke_blocked_request", "callback_preempted_between_append_and_write", "sentinel_injected",
           "sigwinch_wakeup", "scheduled_woke_request", "pipe_full_block", "multi_kb_burst"]
 TRIGGERS = {}
@@ -604,6 +604,7 @@ def _execute(p, s, res):
         if len(due) >= 2:
             world.probe("two_scheduled_due")
         spur0 = world.probes.get("stale_wakeup_spurious", 0)
+        sig0 = kernel.sig.delivered
         sel0 = world.probes.get("select_blocked", 0)
         world.log.add("request", si, timeout, deliv)
         in_request[0] = True
@@ -630,6 +631,8 @@ def _execute(p, s, res):
         world.log.add("returned", si, kind, r if isinstance(r, (str, bytes)) else getattr(r, "n", None), round(now - start, 9))
         if len(reads) > 1:
             world.probe("paste_refilled")
+        if kernel.sig.delivered > sig0 and not cfg["sigint_event"] and world.main_waited:
+            world.probe("interrupted_without_sigint_event")
         # trigger-pipe reads of this request that did not produce its result were stale wake-ups
         spurious = req_spur[0] - (1 if (isinstance(r, Ev) and M.event_serials.get(r.n, ("",))[0] == "ts" and world.main_waited) else 0)
         if spurious > 0:
